@@ -21,7 +21,7 @@ type Node struct {
 	FFstat  bool   `json:"f_fstat,omitempty"` // Stat() on the opened file fails
 	FStat   bool   `json:"f_stat,omitempty"`  // fs.Stat(path) fails
 	ReadAt  *int   `json:"f_read_at,omitempty"`
-	ErrKind string `json:"f_kind,omitempty"` // perm | other
+	ErrKind string `json:"f_kind,omitempty"` // perm | other | notexist
 }
 
 func (n *Node) isDir() bool { return n.Kind == "dir" }
@@ -34,6 +34,9 @@ func (n *Node) err(op, p string) error {
 	e := errOther
 	if n.ErrKind == "perm" {
 		e = fs.ErrPermission
+	}
+	if n.ErrKind == "notexist" {
+		e = fs.ErrNotExist
 	}
 	return &fs.PathError{Op: op, Path: p, Err: e}
 }
